@@ -58,6 +58,8 @@ def concretise(stream, salt):
             out.append('\\%s%s{T w%dt}' % ((SECBOOK if book else SEC)[it['lvl']], '*' if (n + salt) % 4 == 0 else '', n))
         elif k == 'decl':
             out.append('\\%s ' % DECLS[(n + salt) % len(DECLS)])
+        elif k == 'scmd':
+            out.append('\\printindex ')
         elif k == 'envb':
             out.append(r'\begin{%s}' % it['ty'])
         elif k == 'enve':
